@@ -53,7 +53,10 @@ def index (j : Json) : Json :=
          ("S", toJson (List.zipWith (fun s e => (a.drop s).take (e - s)) ss es))]
   | "mask" =>
     let bs := jBoolList (fld j "bs")
-    let m := fromArray (fun x y => x != y) bs
+    -- "lv" present: the mask is `from_array(lv) > 0`, which keeps the run boundaries of `lv` (adjacent runs may be equal)
+    let lv := jIntList (fld j "lv")
+    let m := if lv.isEmpty then fromArray (fun x y => x != y) bs
+      else ((fromArray (fun (x y : Int) => x != y) lv).mapValues (fun v => decide (v > 0))).getD (fromArray (fun x y => x != y) bs)
     obj [("L", optRlaJ (r.getitemBool m)),
          ("S", obj [("decoded", toJson ((a.zip bs).filterMap (fun p => if p.2 then some p.1 else none))), ("valid", toJson true)])]
   | _ => obj [("error", "bad kind")]
